@@ -868,11 +868,11 @@ def implied_tags(mod, impl_ctx, name, cur):
         if 'C11' in cur:
             add.add('C04')
         if is_ser:
-            add |= {'C01', 'C02', 'C03', 'C04', 'C14'}
+            add |= {'C01', 'C02', 'C03', 'C04', 'C11', 'C14'}    # ... and the option bits reach the image here
         elif name == 'len':
             add |= {'C01', 'C02', 'C03'}
         elif name.startswith('new') and ('C04' in cur or 'C03' in cur):
-            add |= {'C03', 'C04'}
+            add |= {'C01', 'C02', 'C03', 'C04'}     # constructors set the type code and the length field
         elif name.startswith(('add_', 'update_header', 'set_')) and (cur & {'C01', 'C02', 'C03', 'C04'}):
             add |= {'C01', 'C02', 'C03', 'C04'}
         if mod in ('hmat', 'slit') and 'C01' in (cur | add):
@@ -896,11 +896,12 @@ def implied_tags(mod, impl_ctx, name, cur):
                 add.add('C14')
     elif mod == 'lib':
         if impl_ctx == 'AmlSink' or impl_ctx.startswith('AmlSink for alloc::vec::Vec'):
-            add |= {'C01', 'C04', 'C06', 'C08', 'C10', 'C13', 'C14'}
+            # the trait's default methods and the Vec sink: every property observed through emitted bytes
+            add |= {'C01', 'C02', 'C03', 'C04', 'C05', 'C06', 'C07', 'C08', 'C09', 'C10', 'C11', 'C12', 'C13', 'C14', 'C15', 'C16', 'C18'}
         elif impl_ctx == 'AmlSink for Checksum':
-            add |= {'C01', 'C14', 'C17'}
+            add |= {'C01', 'C12', 'C14', 'C17'}
         elif impl_ctx == 'Checksum':
-            add |= {'C01', 'C17'}
+            add |= {'C01', 'C12', 'C17'}     # the matrices' checksums (C12) are kept by this accumulator too
         elif 'TableHeader' in impl_ctx:
             add |= {'C01', 'C02', 'C04', 'C14'}
     return add - cur
